@@ -950,6 +950,73 @@ theorem incomplete_backup_blocks_manager (c : Cfg) (s0 : St) (files : List Path)
     · cases hparse
     · omega
 
+/-! ## 10b. No history of creations and re-opened managers overwrites an existing name -/
+
+/-- **An existing name is never overwritten, whatever its record.**  `A` is a name in the manager's
+dictionary (its record may be EMPTY - a backup made from an empty selection) whose directory exists.
+After any history of `create_backup` calls (any names incl. `A` itself, any file selections incl. `[]`)
+and re-opened managers, `A` is still in the dictionary and no path below `A`'s directory has changed. -/
+theorem create_never_overwrites (c : Cfg) (A : Name) (h : List BOp) (m : Listing) (s : St)
+    (hA : A ∈ m.map (·.1)) (hdir : A ∈ children s c.backups) :
+    A ∈ (brun c h (m, s)).1.map (·.1) ∧ A ∈ children (brun c h (m, s)).2 c.backups ∧
+      ∀ p, (c.backups ++ [A]) <+: p → get (brun c h (m, s)).2 p = get s p := by
+  induction h generalizing m s with
+  | nil => exact ⟨hA, hdir, fun _ _ => rfl⟩
+  | cons o r ih =>
+    simp only [brun, List.foldl_cons]
+    change _ ∈ (brun c r (bstep c (m, s) o)).1.map _ ∧ _ ∈ children (brun c r (bstep c (m, s) o)).2 _ ∧
+      ∀ p, _ → get (brun c r (bstep c (m, s) o)).2 p = _
+    -- one step keeps the invariant
+    have step : A ∈ (bstep c (m, s) o).1.map (·.1) ∧ A ∈ children (bstep c (m, s) o).2 c.backups ∧
+        ∀ p, (c.backups ++ [A]) <+: p → get (bstep c (m, s) o).2 p = get s p := by
+      cases o with
+      | create n files =>
+        simp only [bstep]
+        split
+        · rename_i hret
+          -- the call went ahead, so `n` was not in the dictionary: `n ≠ A`
+          have hn : A ≠ n := by
+            intro e; subst e
+            have := (no_overwrite { c with name := A } m s files hA).1
+            simp [this] at hret
+          refine ⟨by simp [hA], ?_, ?_⟩
+          · exact mem_children_exec _ s _ _ (fun st hst => by
+              have : st ∈ createSteps { c with name := n } s files := by
+                simp only [create] at hst hret
+                split at hst
+                · cases hst
+                · exact hst
+              exact (createSteps_tgt _ s files st this).1) hdir
+          · intro p hp
+            have hc : (create { c with name := n } m s files).2 = createSteps { c with name := n } s files := by
+              simp only [create] at hret ⊢
+              split
+              · rename_i hx; simp [hx] at hret
+              · rfl
+            rw [hc]
+            have := (backups_independent { c with name := n } A hn s files
+              (createSteps { c with name := n } s files).length).1 p hp
+            simpa [crashAfter, List.take_length] using this
+        · exact ⟨hA, hdir, fun _ _ => rfl⟩
+      | reopen =>
+        simp only [bstep]
+        split
+        · rename_i l hl
+          obtain ⟨ks, hks⟩ := scanList_names _ _ _ _ hl A hdir
+          exact ⟨List.mem_map.mpr ⟨(A, ks), hks, rfl⟩, hdir, fun _ _ => rfl⟩
+        · exact ⟨hA, hdir, fun _ _ => rfl⟩
+    obtain ⟨i1, i2, i3⟩ := ih (bstep c (m, s) o).1 (bstep c (m, s) o).2 step.1 step.2.1
+    exact ⟨i1, i2, fun p hp => by rw [i3 p hp, step.2.2 p hp]⟩
+
+/-- ... hence, after any such history, `create_backup(files, A)` returns `False` and does nothing. -/
+theorem create_existing_returns_false (c : Cfg) (A : Name) (h : List BOp) (m : Listing) (s : St) (files : List Path)
+    (hA : A ∈ m.map (·.1)) (hdir : A ∈ children s c.backups) :
+    bstep c (brun c h (m, s)) (.create A files) = brun c h (m, s) := by
+  have := (no_overwrite { c with name := A } (brun c h (m, s)).1 (brun c h (m, s)).2 files
+    (create_never_overwrites c A h m s hA hdir).1).1
+  simp [bstep, this]
+
+
 /-! ## 11. Non-vacuity: the hypotheses are satisfiable and the accepting branch is reachable -/
 
 section Examples
@@ -998,6 +1065,13 @@ example : get (crashAfter 3 (restoreSteps cEx fEx [] (exec (createSteps cEx sEx 
 /-- record text of a non-ASCII / quoted key: escaped with `\uXXXX` (surrogate pair for U+1F600), read back -/
 example : parse (record ['t'] [['é', '/', '😀', '"']]) = some [['é', '/', '😀', '"']] := by decide
 example : (record ['t'] [['😀']]).length = 27 := by decide
+/-- an EMPTY-record backup `e` (made from an empty selection) is listed with record `[]`, and creating
+`e` again with a non-empty selection changes nothing -/
+example : ((scan (exec (createSteps { cEx with name := ['e'] } sEx []) sEx) cEx.backups).toOption)
+    = some [(['e'], [])] := by decide
+example : brun cEx [.create ['e'] fEx, .reopen, .create ['e'] fEx]
+      ([(['e'], [])], exec (createSteps { cEx with name := ['e'] } sEx []) sEx)
+    = ([(['e'], [])], exec (createSteps { cEx with name := ['e'] } sEx []) sEx) := by decide
 end Examples
 
 end HedVerif.C18
